@@ -464,7 +464,7 @@ def run_to_file(cmd, in_path, out_path, timeout=3600, cwd=BUILD, unlimited_stack
     return rc, out
 
 
-def parallel_map_files(cmd, in_path, out_path, shards=16, timeout=3600, unlimited_stack=False):
+def parallel_map_files(cmd, in_path, out_path, shards=16, timeout=3600, unlimited_stack=False, mem_kb=0):
     """Split in_path into `shards` consecutive pieces, run cmd on each in parallel, concatenate."""
     lines = open(in_path).read().splitlines(True)
     if len(lines) < shards * 4:
@@ -472,6 +472,10 @@ def parallel_map_files(cmd, in_path, out_path, shards=16, timeout=3600, unlimite
     per = (len(lines) + shards - 1) // shards
     procs = []
     pre = "ulimit -s unlimited 2>/dev/null; " if unlimited_stack else ""
+    if mem_kb:
+        # a worker whose subject allocates without bound fails by itself (Go: "fatal error: out of memory") instead of pushing the
+        # whole machine into the OOM killer
+        pre += "ulimit -v %d 2>/dev/null; " % mem_kb
     c = " ".join(cmd) if isinstance(cmd, list) else cmd
     for i in range(shards):
         part = lines[i * per:(i + 1) * per]
@@ -497,7 +501,9 @@ def parallel_map_files(cmd, in_path, out_path, shards=16, timeout=3600, unlimite
     with open(out_path, "w") as fo:
         for _, pi, po in procs:
             if os.path.exists(po):
-                fo.write(open(po).read())
+                data = open(po).read()
+                # a worker that was killed leaves a last line without its end: never let it merge with the next shard's first line
+                fo.write(data if (not data or data.endswith("\n")) else data + "\n")
                 os.remove(po)
             os.remove(pi)
     return rc_all, err
